@@ -184,6 +184,20 @@ func runMsg(c msgCase) pbt.Result {
 	if d := msgEq(m, m2); d != "" {
 		return merge(res, pbt.Failf("CBOR round trip changed %s: %+v -> %+v", d, m, m2))
 	}
+	// decoding into a Message that already holds another message gives the same result: the decoder resets
+	// its receiver (receivers of a stream of announcements reuse one variable)
+	for _, dirty := range []message.Message{
+		{Cid: m.Cid, Addrs: [][]byte{{1, 2, 3}, {4}}, ExtraData: []byte("previous extra data"), OrigPeer: "12D3KooWPrevious"},
+		{Addrs: [][]byte{}, ExtraData: []byte{}},
+	} {
+		mr := dirty
+		if err := mr.UnmarshalCBOR(bytes.NewReader(enc)); err != nil {
+			return merge(res, pbt.Failf("UnmarshalCBOR into a Message that held %+v: %v (a fresh Message decodes the same bytes)", dirty, err))
+		}
+		if d := msgEq(m, mr); d != "" {
+			return merge(res, pbt.Failf("UnmarshalCBOR into a Message that held %+v changed %s: got %+v, want %+v", dirty, d, mr, m))
+		}
+	}
 	// JSON round trip
 	js, err := json.Marshal(m)
 	if err != nil {
@@ -307,7 +321,7 @@ func merge(base, f pbt.Result) pbt.Result {
 
 func TestC10_RoundTrip(t *testing.T) {
 	pbt.Run(t, pbt.Config{Prop: "C10", Unit: "TestC10_RoundTrip",
-		Rule: "messages: any defined CID, 0..32 address byte strings (valid multiaddrs, multiaddrs with unregistered protocol codes, empty strings), extra data 0..4096 B, OrigPeer absent or a peer-ID string; oracles: CBOR and JSON round trips give an equal message (nil == empty), 3- vs 4-field CBOR form chosen by OrigPeer, GetAddrs skips unknown-protocol addresses and keeps the rest in order, httpsender Send/SendJson (1 or 2 URLs, optional sender-level extra data) put on the wire a message a receiver decodes to the original with /p2p/<publisher> appended to every known-protocol address. Non-trivial: >= 1 address and (extra data or OrigPeer); distinct by case.",
+		Rule: "messages: any defined CID, 0..32 address byte strings (valid multiaddrs, multiaddrs with unregistered protocol codes, empty strings), extra data 0..4096 B, OrigPeer absent or a peer-ID string; oracles: CBOR and JSON round trips give an equal message (nil == empty), also when the CBOR is decoded into a Message that already holds another message, 3- vs 4-field CBOR form chosen by OrigPeer, GetAddrs skips unknown-protocol addresses and keeps the rest in order, httpsender Send/SendJson (1 or 2 URLs, optional sender-level extra data) put on the wire a message a receiver decodes to the original with /p2p/<publisher> appended to every known-protocol address. Non-trivial: >= 1 address and (extra data or OrigPeer); distinct by case.",
 		Assumptions: []string{"messages with an empty address byte string are not sent (GetAddrs legitimately fails on them)", "loopback HTTP capture server"},
 	}, genMsg, runMsg)
 }
